@@ -35,9 +35,32 @@ def selected_groups(r, files):
     return groups
 
 
+def required_pool(r):
+    """pool files (with positive size) that the configuration of repository r selects in its version"""
+    out = set()
+    for cn, comps in r["config"]["codenames"].items():
+        vc = r["version"]["codenames"].get(cn)
+        if vc is None:
+            continue
+        for comp, cc in comps.items():
+            vcomp = vc["components"].get(comp)
+            if vcomp is None:
+                continue
+            for a in list(cc["arches"]) + (["all"] if cc["arches"] else []):
+                for pk in vcomp["arches"].get(a, []) or []:
+                    if isinstance(pk["size"], int) and pk["size"] > 0:
+                        out.add(P.pkg_filename(comp, a, pk))
+            if cc["src"]:
+                for sr in vcomp.get("sources") or []:
+                    for suf, size in sr["files"]:
+                        if size > 0:
+                            out.add(f"{P.src_dir(comp, sr)}/{sr['name']}_{sr['version']}.{suf}")
+    return out
+
+
 def gen_case(rng):
     kind = rng.choice(["clean", "transient", "required_fails", "release_fails", "independence", "hostile_index",
-                       "ignore_errors", "optional_404", "release_mismatch", "optional_flaky_404"])
+                       "ignore_errors", "optional_404", "release_mismatch", "optional_flaky_404", "ignore_near_miss"])
     nrepos = 2 if kind in ("independence", "hostile_index") or rng.random() < 0.3 else 1
     scn = P.gen_scenario(rng, nrepos=nrepos)
     return scn, {"kind": kind, "seed": rng.getrandbits(32)}
@@ -140,6 +163,18 @@ def run_case(rep, scn, case, sb: Path, tag):
         if have_release and fl:
             plan[vurl] = {p: {"first": [], "rest": "missing"} for p in fl}
             expect_ok = {r["url"] for r in scn2.repos}
+    elif kind == "ignore_near_miss":
+        # ignore_errors names a string prefix of a required pool file's directory that is NOT one of its
+        # parent directories (path components cut short): nothing is under it, the failure must count
+        pool = sorted(p for p in required_pool(scn2.repos[0]) if p in files2[vurl] and p not in files1.get(vurl, {}))
+        if pool:
+            v = rng.choice(pool)
+            d = os.path.dirname(v)
+            cut = rng.choice([d[:-1], d[:-2], os.path.dirname(d) + "/" + os.path.basename(d)[:1]])
+            if not any((q + "/").startswith(cut + "/") for q in files2[vurl]):
+                plan[vurl] = {v: {"first": [], "rest": rng.choice(["missing", "error", "short"])}}
+                victim["config"]["ignore_errors"] = [cut]
+                expect_fail = {vurl}
     elif kind == "optional_flaky_404":
         # optional flavours that do not exist (404), the 404 preceded by a few transient failures
         cns = list(victim["config"]["codenames"])
